@@ -16,7 +16,7 @@ import scipy.sparse as sp
 from vf import msmcommon as mc
 from vf import clustercommon as cc
 
-RULE = ('cases = one routine of a 64-entry registry of the numerical API with '
+RULE = ('cases = one routine of a 65-entry registry of the numerical API with '
         'seeded arguments (including the degenerate ones that create masked '
         'cells: zero probabilities, all-zero joint-count blocks, zero rows); '
         'each argument tuple is evaluated 6 times in one process: heap fill '
@@ -32,7 +32,10 @@ REQUIRED = ['routine_calls', 'differentials_compared', 'bytes_poisoned',
             'masked_ufunc_calls_censused']
 ASSUMPTIONS = ['the allocator hook covers NumPy array data only (not SciPy '
                'C workspaces, not Python objects)',
-               'random routines are called with fixed integer seeds']
+               'random routines are called with fixed integer seeds',
+               'the sparse eigen-solver (ARPACK, >= 1000 states) starts from '
+               'its own pseudo-random vector: eq_probs[large-sparse] is '
+               'compared to 7 decimals, not bit for bit']
 
 
 def shards(tier):
@@ -317,6 +320,26 @@ def build_registry():
         cn = ['ndarray', 'csr'][int(rng.integers(0, 2))]
         return (mc.to_container(T, cn),), {}, False
     reg('eigenspectrum', E.tm.eigenspectrum, g_T)
+
+    def g_big_sparse(rng):
+        # >= 1000 states (the sparse eigen-solver path) in CSC or CSR storage
+        # that holds explicitly stored zeros, as masking .data leaves behind
+        Cb = mc.large_metastable_counts(rng).astype(float)
+        Tb = Cb.tocsc() if rng.random() < 0.6 else Cb.tocsr()
+        Tb.data[rng.choice(Tb.nnz, size=150, replace=False)] = 0.0
+        rs = np.asarray(Tb.sum(axis=1)).ravel()
+        # row-normalise in place, which keeps the stored zeros
+        if Tb.format == 'csc':
+            Tb.data /= rs[Tb.indices]
+        else:
+            Tb.data /= np.repeat(rs, np.diff(Tb.indptr))
+        return (Tb,), {}, False
+    # (ARPACK starts from its own pseudo-random vector, so two runs agree to
+    # ~1e-16, not bit for bit: compared after rounding to 7 decimals; what
+    # this entry is for is the argument fingerprint)
+    reg('eq_probs[large-sparse]',
+        lambda T: np.round(np.asarray(E.tm.eq_probs(T), dtype=float), 7),
+        g_big_sparse)
     reg('eq_probs', E.tm.eq_probs, g_T)
 
     def g_ens(rng):
